@@ -729,7 +729,7 @@ func c35HistHash(h c35Hist) uint64 {
 }
 
 // c35Explore extends a history only while every request so far reached the handler and the connection can go on.
-func c35Explore(r *vrt.R, s *Server, dir string, h c35Hist, maxLen, maxBig int, alphabet []int, cnt *int) {
+func c35Explore(r *vrt.R, s *Server, dir string, h c35Hist, maxLen, maxBig int, alphabet []int, bigCtx map[string]bool, cnt *int) {
 	for _, e := range alphabet {
 		if r.Expired() {
 			r.NotExhaustive("time budget reached in temp-file histories")
@@ -738,6 +738,22 @@ func c35Explore(r *vrt.R, s *Server, dir string, h c35Hist, maxLen, maxBig int, 
 		nb := 0
 		if c35Elems[e].Big {
 			nb = 1
+		}
+		if bigCtx != nil {
+			// quick tier: a history with a 16 MiB request takes its other requests from a reduced alphabet
+			hasBig := nb == 1
+			for _, x := range h.Elems {
+				hasBig = hasBig || c35Elems[x].Big
+			}
+			ok := true
+			if hasBig {
+				for _, x := range append(append([]int(nil), h.Elems...), e) {
+					ok = ok && (c35Elems[x].Big || bigCtx[c35Elems[x].Name])
+				}
+			}
+			if !ok {
+				continue
+			}
 		}
 		for _, x := range h.Elems {
 			if c35Elems[x].Big {
@@ -753,7 +769,7 @@ func c35Explore(r *vrt.R, s *Server, dir string, h c35Hist, maxLen, maxBig int, 
 		el := c35Elems[e]
 		closes := el.Handler == "parse-close" || d < len(h2.Elems)
 		if !closes && len(h2.Elems) < maxLen {
-			c35Explore(r, s, dir, h2, maxLen, maxBig, alphabet, cnt)
+			c35Explore(r, s, dir, h2, maxLen, maxBig, alphabet, bigCtx, cnt)
 		}
 	}
 }
@@ -800,15 +816,16 @@ func TestVerif_C35(t *testing.T) {
 	maxBig := vrt.Pick(r, 1, 3)
 	r.Rule(fmt.Sprintf("(a) every form of the <=%d-deviation product over {0-2 value fields: names %q/%q, values (7, incl. CRLF, quotes, non-ASCII, delimiter look-alikes that are legitimate content, 9.9 KB); 0-2 files: field names %q/%q, file names %q, sizes %v; source files in memory/on disk} "+
 		"plus single-file forms of 16MiB-1/16MiB/16MiB+1 bytes, written with WriteMultipartForm and read back through %v; oracle: parsed values, file names and file contents == written. "+
-		"(b) every history of <=%d requests (extended while the connection stays open; <=%d requests with a 16 MiB+1 file per history) over %d request/handler symbols x {pre-parse on/off} x {StreamRequestBody on/off} through Server.ServeConn with a private TMPDIR; "+
+		"(b) every history of <=%d requests (extended while the connection stays open; <=%d requests with a 16 MiB+1 file per history; in the quick tier such a history takes its other requests from {get, mp-9k/parse}) over %d request/handler symbols x {pre-parse on/off} x {StreamRequestBody on/off} through Server.ServeConn with a private TMPDIR; "+
 		"oracle: no temp file seen during request j exists at the dispatch or handler exit of a later request or after the connection was closed. non-trivial: non-empty forms; histories in which a temp file was actually observed",
 		maxDev, c35Names1, c35Names2, c35FFields1, c35FFields2, c35FNames, c35Sizes, c35Paths, maxLen, maxBig, len(c35Elems)))
 	r.Assume("mime/multipart (writer for the seed files, FileHeader.Open) is the reference for what a file part contains; value fields with an empty name are outside the enumeration (the standard reader skips parts without a name)",
 		"temp files are created only in os.TempDir()=$TMPDIR (mime/multipart uses os.CreateTemp(\"\", \"multipart-\"))")
 	r.Set("max_deviations", maxDev)
 
-	// (b) first: sequential, while nothing else in this process creates temp files
+	partB := func() {
 	nh := 0
+	tb := time.Now()
 	for _, cfg := range cfgs {
 		var alphabet []int
 		for i, e := range c35Elems {
@@ -822,12 +839,19 @@ func TestVerif_C35(t *testing.T) {
 		}
 		s := c35Server(cfg)
 		cnt := 0
-		c35Explore(r, s, dir, c35Hist{Cfg: cfg}, maxLen, maxBig, alphabet, &cnt)
+		var bigCtx map[string]bool
+		if !r.Thorough() {
+			bigCtx = map[string]bool{"get": true, "mp-9k/parse": true}
+		}
+		c35Explore(r, s, dir, c35Hist{Cfg: cfg}, maxLen, maxBig, alphabet, bigCtx, &cnt)
 		nh += cnt
 		r.Eval(cnt)
 	}
 	r.Set("tempfile_histories", nh)
+	r.Set("tempfile_part_wall_s", time.Since(tb).Seconds())
 	r.Sample(c35Hist{Cfg: cfgs[0], Elems: []int{10, 4, 0}, Text: c35Hist{Cfg: cfgs[0], Elems: []int{10, 4, 0}}.String()})
+
+	}
 
 	// (a) in parallel; the directory is checked once at the end
 	dims := c35Dims()
@@ -857,5 +881,10 @@ func TestVerif_C35(t *testing.T) {
 	})
 	if left := c35List(dir); len(left) != 0 {
 		r.Violation("roundtrip:tempfile-left-after-reset", fmt.Sprintf("after all round trips (every Request was Reset) the private TMPDIR still holds %d files, e.g. %s", len(left), left[0]), c35FormSpec{Text: "whole part (a)"})
+		for _, f := range left {
+			os.Remove(dir + "/" + f)
+		}
 	}
+	// (b) sequential, after the parallel part: nothing else in this process creates temp files now
+	partB()
 }
